@@ -161,3 +161,10 @@ LEVEL_NOTE = ('Trusted: Python re, Hypothesis. Expressions that match no '
               'example because of the two recorded rexpy defects (non-ASCII '
               'decimals under portable/grep, sampling loop) are attributed to '
               'those findings by the same predicates as C03.')
+
+
+def extra(tier, ctx, info, seed_value):
+    import sys
+    for x in c03.fuzz_campaign('C13', sys.modules[__name__], tier, ctx, info,
+                               seed_value):
+        yield x
